@@ -14,8 +14,15 @@ MSGS = TSeq(TStr())
 
 
 def is_note(m):
-    """how a rendered message is recognised as a note by the exit-status computation"""
-    return z3.Contains(m, NOTE)
+    """a rendered message `<location>: <severity>: <text>` is a note iff its SEVERITY FIELD is `note`:
+    the first severity marker in the line is ': note:' (the text itself may quote either marker)"""
+    i, j = z3.IndexOf(m, ERROR, 0), z3.IndexOf(m, NOTE, 0)
+    return z3.And(j >= 0, z3.Or(i < 0, j < i))
+
+
+def is_error(m):
+    i, j = z3.IndexOf(m, ERROR, 0), z3.IndexOf(m, NOTE, 0)
+    return z3.And(i >= 0, z3.Or(j < 0, i < j))
 
 
 # ---- count_stats (contract used by the region proof; verified below on bounded lists)
@@ -29,10 +36,10 @@ def count_stats_contract(I, args, kwargs):
     j = z3.Int("cs_j")
     rng = z3.And(j >= 0, j < n)
     c.assume(z3.And(ne >= 0, ne <= n, nn >= 0, nn <= n, nf >= 0, nf <= ne))
-    c.assume((nn == n) == z3.ForAll([j], z3.Implies(rng, z3.Contains(msgs[j], NOTE))))
-    c.assume((nn == 0) == z3.ForAll([j], z3.Implies(rng, z3.Not(z3.Contains(msgs[j], NOTE)))))
-    c.assume((ne == n) == z3.ForAll([j], z3.Implies(rng, z3.Contains(msgs[j], ERROR))))
-    c.assume((ne == 0) == z3.ForAll([j], z3.Implies(rng, z3.Not(z3.Contains(msgs[j], ERROR)))))
+    c.assume((nn == n) == z3.ForAll([j], z3.Implies(rng, is_note(msgs[j]))))
+    c.assume((nn == 0) == z3.ForAll([j], z3.Implies(rng, z3.Not(is_note(msgs[j])))))
+    c.assume((ne == n) == z3.ForAll([j], z3.Implies(rng, is_error(msgs[j]))))
+    c.assume((ne == 0) == z3.ForAll([j], z3.Implies(rng, z3.Not(is_error(msgs[j])))))
     c.assume((nf == 0) == (ne == 0))
     return STuple([SInt(ne), SInt(nn), SInt(nf)])
 
@@ -43,11 +50,14 @@ def setup_count(I):
 
 
 def ens_count(I, env, res):
-    """errors / notes are the messages carrying the ': error:' / ': note:' marker (bounded lists)"""
+    """errors / notes are the messages whose severity field is error / note (bounded lists)"""
     msgs = env["messages"].t
-    n = I.ctx.concretize(z3.Length(msgs), what="message count")
-    ne = z3.Sum([z3.If(z3.Contains(msgs[i], ERROR), 1, 0) for i in range(n)] + [z3.IntVal(0)])
-    nn = z3.Sum([z3.If(z3.Contains(msgs[i], NOTE), 1, 0) for i in range(n)] + [z3.IntVal(0)])
+    # the unrolled path fixes the list length: find it with small sliced queries
+    n = next((k for k in range(0, 5) if I.ctx.implied(z3.Length(msgs) == k)), None)
+    if n is None:
+        n = I.ctx.concretize(z3.Length(msgs), what="message count")
+    ne = z3.Sum([z3.If(is_error(msgs[i]), 1, 0) for i in range(n)] + [z3.IntVal(0)])
+    nn = z3.Sum([z3.If(is_note(msgs[i]), 1, 0) for i in range(n)] + [z3.IntVal(0)])
     a, b, c = [ival(I.unopt(x)) for x in res.items]
     return z3.And(a == ne, b == nn, (c == 0) == (ne == 0), c >= 0, c <= ne)
 
@@ -79,9 +89,30 @@ def ens_exit_code(I, env, res):
     return z3.And((code == 0) == all_notes, (code == 2) == z3.And(z3.Not(all_notes), b), z3.Or(code == 0, code == 1, code == 2))
 
 
+def severity_spec(m, marker, other):
+    i, j = z3.IndexOf(m, marker, 0), z3.IndexOf(m, other, 0)
+    return z3.And(i >= 0, z3.Or(j < 0, i < j))
+
+
+def has_severity_contract(I, args, kwargs):
+    """util._has_severity(message, marker, other_marker): marker occurs and no other_marker precedes it
+    (verified for all strings by target exit.has_severity)"""
+    return SBool(severity_spec(args[0].t, args[1].t, args[2].t))
+
+
+def ens_has_severity(I, env, res):
+    m, a, b = env["args"]
+    return res.t == severity_spec(m.t, a.t, b.t)
+
+
 def targets(tier):
     return [
+        Target("exit.has_severity", "mypy.util:_has_severity", lambda I: {"args": [I.make(TStr(), "message"), SStr(ERROR), SStr(NOTE)]},
+               ensures=[("first-marker-decides", ens_has_severity)], raises=(), note="severity field of a rendered message, error marker"),
+        Target("exit.has_severity.note", "mypy.util:_has_severity", lambda I: {"args": [I.make(TStr(), "message"), SStr(NOTE), SStr(ERROR)]},
+               ensures=[("first-marker-decides", ens_has_severity)], raises=(), note="severity field of a rendered message, note marker"),
         Target("exit.count_stats", "mypy.util:count_stats", setup_count, ensures=[("counts-marked-messages", ens_count)], raises=(),
+               overrides={"mypy.util:_has_severity": has_severity_contract},
                unroll=3, bounded="message lists of at most 2 entries (comprehensions unrolled 3x)", feas_timeout_ms=700),
         Target("exit.main.exit_code", "mypy.main:main", setup_region, ensures=[("exit-status-from-messages", ens_exit_code)], raises=(),
                start_at="code = 0", cut_at="if options.error_summary:",
